@@ -132,7 +132,10 @@ class C08:
             return {"metadata": self.meta(rng)}
         if ty == "package":
             d = {"buildpack": {"uri": rng.choice([".", "../x", "/abs/p", "docker://r/i:1", "libcnb:a/b", "https://h/p?q=1#f", "urn:cnb:registry:x"])}}
-            self.maybe(rng, d, "dependencies", [{"uri": rng.choice(["libcnb:x/y", "../b", "docker://d/e", "a%20b"])} for _ in range(rng.randint(0, 3))])
+            self.maybe(rng, d, "dependencies", [{"uri": rng.choice(["libcnb:x/y", "../b", "docker://d/e", "a%20b",
+                                                                        # references that are not in RFC 3986 normal form are values like any other
+                                                                        "./buildpacks/ruby", "../shared/../b", "a/./b", "/opt/%7Euser/./java",
+                                                                        "docker://Registry.Example.COM/img:1"])} for _ in range(rng.randint(0, 3))])
             self.maybe(rng, d, "platform", {"os": rng.choice(["linux", "windows"])})
             return d
         raise ValueError(ty)
